@@ -1,6 +1,7 @@
 """Implementation side of the query-family correspondence: builds each case through the PUBLIC API only and
 observes the rows, with caching disabled and enabled, first evaluation and re-evaluation."""
 import sys, json, operator, signal, gc
+from entity_query_language.symbolic import SymbolicExpression
 from dataclasses import dataclass, field
 from typing import Optional, Any
 from entity_query_language import *
@@ -368,12 +369,13 @@ class Builder:
                 built = [self.cond(p, negated) for p in parts]
                 return and_(*built) if k == 'and' else or_(*built)
             l, r = self.cond(c[1], negated), self.cond(c[2], negated)
-            if style == 'op':
+            # (the operators & | ~ of a Python constant are Python's own: a constant operand is always passed to and_ / or_ / not_)
+            if style == 'op' and isinstance(l, SymbolicExpression) and isinstance(r, SymbolicExpression):
                 return (l & r) if k == 'and' else (l | r)
             return and_(l, r) if k == 'and' else or_(l, r)
         if k == 'not':
             x = self.cond(c[1], True)
-            return ~x if (len(c) > 2 and c[2] == 'op') else not_(x)
+            return ~x if (len(c) > 2 and c[2] == 'op' and isinstance(x, SymbolicExpression)) else not_(x)
         if k == 'forall':
             return for_all(self.term(c[3]) if len(c) > 3 else self.vars[c[1]], self.cond(c[2], negated))
         if k == 'sub':
